@@ -55,7 +55,7 @@ PROPS = {
  "C02": dict(
     level_text="Lean 4 proof of a forward simulation to a bounded FIFO with fixed linearization points (tail CAS = enqueue, head CAS = dequeue), capacity bound, FIFO of the delivery log, and witness instants for every `empty` and `full` answer, for every execution of the ring models; tied to the code by step-level replay; real-time-order oracle (empty-while-pending, full-while-room, FIFO) on the implementation.",
     level_note=LN_RING,
-    lean=["C02", "C02_LockRing"],
+    lean=["C02", "C02_LockRing", "C13_ZeroCopy"],
     scenarios=[ring("atomic", "mixed", 1600), ring("fullsync", "mixed", 1600)] +
               [dict(bin="uni", args=[f"kind={k}", "sub=flow"], runs=300, model_name="M8 Wake", kinds=["order", "invented", "duplicate", "lost", "panic"]) for k in UNI_KINDS],
     rule=RING_RULE,
@@ -98,7 +98,7 @@ PROPS = {
  "C05": dict(
     level_text="Lean 4 proof: each payload generation is destroyed at most once and exactly once when its last handle is gone, a held slot is never re-allocated or overwritten, capacity is restored when everything is released (handles model); teardown: a general theorem characterises the field orders under which dropping a channel with buffered handles touches no freed pool memory, instantiated by `decide` on the field orders GENERATED from the current source on every run. Tied to the code by step-level replay + child-process teardown histories with an instrumented payload.",
     level_note=LN_HANDLES + " The teardown model is a region protocol (pool alive/freed): the allocator-level use-after-free itself is only observed on the real code as a crash of the child process.",
-    lean=["C05"],
+    lean=["C05", "C13_ZeroCopy"],
     scenarios=[handles("atomic", 1200), handles("fullsync", 1200), dict(bin="teardown", args=[], runs=100, model=False, single=True, thorough_scale=10, model_name="Teardown (generated field orders)")] +
               [dict(bin="multi", args=[f"kind={k}", f"sub={sub}", "drains=1"], runs=300, model_name="M6+M7 Multi", kinds=["destroyed_while_held", "slot_reused_while_held", "held_value_changed", "panic"]) for k in ["ogre_atomic", "ogre_fullsync", "arc_atomic"] for sub in ["fan", "churn"]],
     rule=HANDLES_RULE + "; teardown: histories (events sent, consumed, handles released before/after) per channel kind, each in a child process",
